@@ -2,7 +2,7 @@
 Cold start of two stations, phases (a2)–(a3) until the claimant polls the listener's address: the claimant forms
 its ring alone (second claim token, GAP requests), the listener overhears it with arbitrary lag.  Helper lemmas.
 -/
-import ProfiVerif.Lemmas.ListenNet
+import ProfiVerif.Lemmas.ListenNetR
 
 namespace PV
 open StationGap TokenRing
